@@ -4,7 +4,9 @@
 (* A module is a sequence of definitions                                    *)
 (*   [kind, style, used]                                                    *)
 (* kind  : how the name is bound - "func", "async", "class", "var",          *)
-(*         "annvar", "augvar", "tuple" at top level; "method", "selfless"    *)
+(*         "annvar", "augvar", "tuple", "chain" (A = B = v: the LATER target),*)
+(*         "starred" (a, *NAME = ..), "listtarget" ([p, NAME] = ..),          *)
+(*         "underscore" (the name _ ) at top level; "method", "selfless"     *)
 (*         (a method that never uses self), "static", "classmeth",           *)
 (*         "classattr" in the body of a top-level class                     *)
 (* style : naming style of the identifier ("snake", "camel", "upper",        *)
